@@ -19,7 +19,7 @@ DISAGREEMENT_IS_TIE_ONLY = False
 MODELLED_FUNCS = {'sugar/core/meta.py': ['Attr.__init__', 'Attr.__getitem__', 'Attr.__setitem__', 'Attr.__delitem__', 'Attr.__getattr__',
                                          'Attr.copy', 'Attr.update', 'Attr.__iter__', 'Attr.__len__'],
                   'sugar/core/seq.py': ['BioSeq.__add__', 'BioSeq.__iadd__', 'BioSeq.reverse', 'BioSeq.copy', 'BioSeq.fts', 'BioSeq.id',
-                                        'BioSeq.complement', 'BioSeq.rc', 'BioBasket.__init__', 'BioBasket.complement', 'BioBasket.rc', 'BioBasket.__setitem__', 'BioBasket.reverse', 'BioBasket.copy', 'BioBasket.sort', 'BioBasket.filter',
+                                        'BioSeq.complement', 'BioSeq.rc', 'BioBasket.__init__', 'BioBasket.complement', 'BioBasket.rc', 'BioBasket.__setitem__', 'BioBasket.fts', 'BioBasket.reverse', 'BioBasket.copy', 'BioBasket.sort', 'BioBasket.filter',
                                         '_BioSeqStr.lower', '_BioSeqStr.upper', '_BioBasketStr.__getattr__']}
 NO_SHRINK_KEYS = ['mapkind', 'obj', 'how', 'mk', 'sub', 'data', 'arg', 'a', 'b', 'operand']
 
@@ -714,6 +714,10 @@ def obj_do(regs, op):
             if not isinstance(x, BioBasket):
                 raise _OOD('filter')
             r = x.filter(len_gt=fn[1])
+        elif f == 'basketfts':
+            if not isinstance(x, BioBasket) or any('fts' not in s_.meta for s_ in x):
+                raise _OOD('basket.fts')          # the getter of a sequence without the item creates it: not modelled
+            r = x.fts
         else:
             raise ValueError(f)
         regs[i] = r
@@ -943,11 +947,11 @@ def o_targets(o, limit=80):
     return out
 
 
-OBJ_PURE = [['copy'], ['copy'], ['slice'], ['slice'], ['addlit'], ['filterlen'], ['get'], ['get']]
+OBJ_PURE = [['copy'], ['copy'], ['slice'], ['slice'], ['addlit'], ['filterlen'], ['basketfts'], ['get'], ['get']]
 OBJ_INPL = ['reverse', 'lower', 'upper', 'complement', 'rc', 'iaddlit', 'sortlen', 'filterlen']
 OBJ_MUT = ['setlit', 'setlit', 'delkey', 'setid', 'appendseq', 'appendfeat', 'appendlit', 'delidx', 'clear']
 OBJ_BIN = ['is', 'is', 'extend', 'setfts', 'setref', 'setitem']
-OBJ_WANT = {'slice': ('Seq', 'Basket', 'Fts'), 'addlit': ('Seq',), 'filterlen': ('Basket',), 'reverse': ('Seq', 'Basket'),
+OBJ_WANT = {'basketfts': ('Basket',), 'slice': ('Seq', 'Basket', 'Fts'), 'addlit': ('Seq',), 'filterlen': ('Basket',), 'reverse': ('Seq', 'Basket'),
             'lower': ('Seq', 'Basket'), 'upper': ('Seq', 'Basket'), 'complement': ('Seq', 'Basket'), 'rc': ('Seq', 'Basket'), 'iaddlit': ('Seq',), 'sortlen': ('Basket',),
             'setlit': ('Meta', 'Attr', 'dict'), 'delkey': ('Meta', 'Attr', 'dict'), 'setid': ('Seq',), 'appendseq': ('Basket',),
             'appendfeat': ('Fts',), 'appendlit': ('list',), 'delidx': ('Basket', 'Fts', 'list'), 'clear': ('Basket', 'Fts', 'list'),
@@ -1088,7 +1092,7 @@ def coq_oop(op):
         return '(OClr %s)' % coq_nat(op[1])
     if name == 'pure':
         _, i, fn, j, q = op
-        f = {'copy': 'PCopy', 'get': 'PGet'}.get(fn[0]) or {
+        f = {'copy': 'PCopy', 'get': 'PGet', 'basketfts': 'PBasketFts'}.get(fn[0]) or {
             'slice': lambda: '(PSlice %s %s)' % (coq_z(fn[1]), coq_z(fn[2])), 'addlit': lambda: '(PAddLit %s)' % coq_bs(fn[1]),
             'filterlen': lambda: '(PFilterLen %s)' % coq_z(fn[1])}[fn[0]]()
         return '(OPure %s %s %s %s)' % (coq_nat(i), f, coq_nat(j), coq_path(q))
@@ -1282,7 +1286,7 @@ RULE = ('kind attr: histories of 1-12 mapping operations (item/attribute set, ge
         'histories of 1-12 public operations (227 operations on BioSeq, BioBasket, FeatureList, Feature, Location, Meta) on real objects '
         'and their copies with deep structural snapshots, id()-reachability and write-footprint checks, plus re-wrap checks of every '
         'constructor / non-in-place operation; kind obj: programs of 2-12 steps over 4 variables holding real BioSeq / BioBasket / '
-        'FeatureList / Meta objects (29 public operations at random reachable receivers, grown while running so that receivers exist; '
+        'FeatureList / Meta objects (30 public operations at random reachable receivers, grown while running so that receivers exist; '
         'empty baskets / sequences / feature lists included) compared with the object-identity model on every step result and on the '
         'canonical object-graph dump; non-trivial = history that reaches a nested object or mixes operation kinds (attr), or '
         'contains copy / re-wrap / reference assignment (heap)')
@@ -1299,7 +1303,7 @@ TRUSTED = ['copy.deepcopy, object identity, reference semantics and collections.
 ASSUMPTIONS = ['metadata keys are Latin-1 str outside the reserved set R = dir(Meta) + __dunder__ names (open finding F20)',
                'literal values are None/bool/int/str/list/dict (no floats, tuples, sets) in the modelled kinds',
                'heap kind: objects passed to copy() have no internal sharing and no cycles (decided by the model: tree_shaped)']
-LEVEL_TEXT = ('Machine-checked Coq theorems (57, all closed under the global context) over three hand-written models '
+LEVEL_TEXT = ('Machine-checked Coq theorems (60, all closed under the global context) over three hand-written models '
               '(every statement of the modelled Attr methods is executed by the quick tier). '
               '(a) Value level (C18_Model.v): get/set/delete laws incl. key order; attribute access = key access and get-after-set at ANY path; '
               'recursive Mapping->Attr conversion (to_dict(Attr(d)) = d, conversion idempotent); an invariant (unique keys, an Attr never directly holds a '
@@ -1313,8 +1317,8 @@ LEVEL_TEXT = ('Machine-checked Coq theorems (57, all closed under the global con
               'the value-level operation on the deep read (setitem of a literal, delitem, list append, at key paths). '
               '(d) Object-identity level (C18_Obj.v): BioSeq / BioBasket / FeatureList / Feature / LocationTuple / Location / Meta / Attr / list '
               'as a heap of objects with identities; copy() = deepcopy is a GRAPH copy (internal sharing and cycles preserved); slicing / + / '
-              're-wrapping share meta.fts and nested metadata by design; every modelled public operation (29: constructors, copy, slicing of '
-              'sequences / baskets / feature lists, +, filter, reverse, complement, rc, str.lower/upper, +=, sort(len), filter(inplace), basket[i] = seq, item set / del on '
+              're-wrapping share meta.fts and nested metadata by design; every modelled public operation (30: constructors, copy, slicing of '
+              'sequences / baskets / feature lists, +, filter, basket.fts, reverse, complement, rc, str.lower/upper, +=, sort(len), filter(inplace), basket[i] = seq, item set / del on '
               'metadata with conversion, id setter, append of sequences / features / literals, del [i], clear, container +=, fts setter, '
               'assignment of an existing object, is) is a PROGRAM for a capability-checked interpreter, and the theorems are proved once for '
               'the interpreter: obj_interp_separation (any program keeps the two-colour invariant and touches no cell of the other colour), '
@@ -1327,7 +1331,10 @@ LEVEL_TEXT = ('Machine-checked Coq theorems (57, all closed under the global con
               'elements, scalars and identity structure incl. internal sharing and cycles), obj_inplace_elements (on a basket of any size '
               'element-wise transformations keep the same element objects in order, sort gives a permutation, filter(inplace) a selection in '
               'order; class and metadata object kept), obj_extend_elements (+= : old elements followed by the operand elements, receiver '
-              'returned), obj_pure_returns_new (copy / slicing / + / filter return an object that did not exist before), '
+              'returned), obj_slice_shares_meta / obj_slice_shares_fts (seq[a:b] is a NEW sequence with the upper-cased residues of the slice whose '
+              'NEW top-level Meta holds the SAME item values: meta.fts and every nested metadata object of the slice ARE those of the origin -- '
+              'sharing by design as a theorem), obj_inplace_seq_effect (an in-place transformation of a sequence changes exactly its residues: '
+              'same object, class and metadata object, nothing else in the store), obj_pure_returns_new (copy / slicing / + / filter return an object that did not exist before), '
               'obj_step_footprint / obj_interp_footprint (WRITE FOOTPRINT: for ANY set of objects that contains the operands and is closed '
               'under references -- e.g. everything reachable from them -- an operation changes no object outside the set), '
               'obj_graph_copy_total / obj_copy_succeeds (on a heap without dangling references, hence on every reachable state, the fuelled '
